@@ -191,3 +191,28 @@ def refusals():
     b.g1(x1, "H"); b.g2(x1, y, "cnot")          # still usable
     b.meas(x1, False, True); b.meas(y, False, True)
     return [("refusals_by_placement", [(4, 8), (4, 8), (2, 8)], b.sym())]
+
+
+def big_merge():
+    """a register that outgrows the engine's default size (10): a one-qubit local register absorbs a 10-qubit register that is simulated
+    at another node and held by three nodes (merges must never fail for capacity)"""
+    b = B()
+    caps = [(6, 12), (6, 12), (6, 12)]
+    first = [b.new(2) for _ in range(5)]
+    b.g1(first[0], "H")
+    for q in first[1:]:
+        b.g2(first[0], q, "cnot")               # 5-qubit register at node 2
+    away = [b.send(first[1], 0), b.send(first[2], 0), b.send(first[3], 1), b.send(first[4], 1)]
+    more = [b.new(2) for _ in range(4)]
+    for q in more:
+        b.g2(first[0], q, "cnot")               # 9 qubits
+    away += [b.send(more[0], 0), b.send(more[1], 1), b.send(more[2], 1)]
+    last = b.new(2)
+    b.g2(first[0], last, "cnot")                # 10 qubits, all simulated at node 2
+    fresh = b.new(0)
+    b.g1(fresh, "K")
+    b.g2(fresh, away[0], "cnot")                # control local (1-qubit register) pulls the 10-qubit register: 11 > 10
+    b.g2(away[1], fresh, "cphase")
+    b.meas(fresh, False, True)
+    b.meas(away[0], False, False)
+    return [("big_merge_beyond_default_register_size", caps, b.sym())]
